@@ -468,11 +468,18 @@ def drive(prop, tier, base_seed, nruns, budget_s, workers=None, sweep=True):
     chunk = max(20, min(400, nruns // (workers * 4) or 20))
     with ProcessPoolExecutor(max_workers=workers, mp_context=ctx) as ex:
         futs = []
+        preset_chunks = []
         if presets:
-            pc = max(1, len(presets) // (workers * 2))
-            for i in range(0, len(presets), pc):
-                futs.append(ex.submit(batch, prop, tier, base_seed, 0, 0, deadline,
-                                      presets[i:i + pc]))
+            if tier == 'quick':
+                pc = max(1, len(presets) // (workers * 2))
+                for i in range(0, len(presets), pc):
+                    futs.append(ex.submit(batch, prop, tier, base_seed, 0, 0, deadline,
+                                          presets[i:i + pc]))
+            else:
+                # thorough: the (large) sweeps share the budget with the seeded search; they
+                # are handed out in small chunks, alternating with seeded batches
+                pc = 2000
+                preset_chunks = [presets[i:i + pc] for i in range(0, len(presets), pc)]
         nxt = 0
         if tier == 'quick':
             while nxt < nruns:
@@ -485,11 +492,17 @@ def drive(prop, tier, base_seed, nruns, budget_s, workers=None, sweep=True):
         else:
             # thorough: keep submitting until the budget is used up
             pending = set(futs)
+            turn = 0
             while True:
                 while len(pending) < workers * 2 and time.time() < deadline - 2:
-                    pending.add(ex.submit(batch, prop, tier, base_seed, nxt, chunk,
-                                          deadline))
-                    nxt += chunk
+                    turn += 1
+                    if preset_chunks and turn % 2:
+                        pending.add(ex.submit(batch, prop, tier, base_seed, 0, 0, deadline,
+                                              preset_chunks.pop(0)))
+                    else:
+                        pending.add(ex.submit(batch, prop, tier, base_seed, nxt, chunk,
+                                              deadline))
+                        nxt += chunk
                 if not pending:
                     break
                 done = []
@@ -504,6 +517,8 @@ def drive(prop, tier, base_seed, nruns, budget_s, workers=None, sweep=True):
                     _merge(total, f.result())
                 if len(total['violations']) >= 5:
                     deadline = min(deadline, time.time())
+    if preset_chunks:
+        sweeps['(not completed within the budget)'] = sum(len(c) for c in preset_chunks)
     total['sweeps'] = sweeps
     total['wall_s'] = time.time() - t0
     return module, total
